@@ -193,7 +193,7 @@ impl BitFont {
     }
 
     pub(crate) fn load_plain_font(font_name: impl Into<String>, data: &[u8]) -> EngineResult<Self> {
-        if data.len() % 256 != 0 {
+        if data.is_empty() || data.len() % 256 != 0 {
             return Err(FontError::UnknownFontFormat(data.len()).into());
         }
         let char_height = data.len() / 256;
